@@ -131,6 +131,10 @@ def jobs_for(t):
             add(g, events(g.nodes, 2, 1))
             add(g, events(g.nodes, 3, 1, stride=24, offset=seed()))
             add(g, multi_parent_events(g))
+        # a seed-chosen slice of the 4-node classes (bugs that need a chain of three plus a confounded or extra node)
+        for i, g in enumerate(family(4, labellings=("fwd",), n_min=4)):
+            if max(len(g.parents(n)) for n in g.nodes) <= 2 and i % 60 == seed() % 60:
+                add(g, events(g.nodes, 2, 1, stride=1, offset=seed()))
         for name in ("fig9", "frontdoor", "napkin"):
             add(CURATED[name], events(CURATED[name].nodes, 2, 1, stride=1))
     else:
